@@ -371,41 +371,42 @@ def parse_lstruct(tok):
 
 
 def lstruct_lines(d):
-    """(ids of all lines in order, ids that must go, kind of every id)"""
-    allids, drop, kind = [], set(), {}
+    """the lines in order as (id, kind, must go, attribute or None); ids are by text, so a session-level line may
+    share its id with a media-level candidate line: everything below is positional"""
+    out = []
     for i in d["session"]:
-        allids.append(i); kind[i] = "session-level line"
+        out.append((i, "session-level line", False, None))
     for heads, attrs in d["media"]:
         for i in heads:
-            allids.append(i); kind[i] = "m=/c=/… line of a media section"
+            out.append((i, "m=/c=/… line of a media section", False, None))
         for a in attrs:
-            allids.append(a[0])
-            kind.setdefault(a[0], "attribute line")
-            if must_drop(a):
-                drop.add(a[0])
-    return allids, drop, kind
+            out.append((a[0], "attribute line", must_drop(a), a))
+    return out
+
+
+def ndrop(d):
+    return sum(1 for x in lstruct_lines(d) if x[2])
 
 
 def lines_diff(d, got):
     """how `got` (list of id strings) differs from the input minus exactly the local host candidate lines"""
-    allids, drop, kind = lstruct_lines(d)
-    want = [str(i) for i in allids if i not in drop]
+    pos = lstruct_lines(d)
+    want = [str(x[0]) for x in pos if not x[2]]
     if got == want:
         return None
-    left = [g for g in got if g != "?" and int(g) in drop]
-    if left:
-        a = [x for _, attrs in d["media"] for x in attrs if x[0] == int(left[0])][0]
-        return "leak", "host candidate line with address %s survives" % show_ip(a[3])
+    # a dropped line's id occurring more often than among the lines to keep = it survived
+    for x in pos:
+        if x[2] and got.count(str(x[0])) > want.count(str(x[0])):
+            return "leak", "host candidate line with address %s survives" % show_ip(x[3][3])
     if "?" in got:
         return "rest", "the output has a line that the input does not have"
-    # first position where the two differ
     k = 0
     while k < len(got) and k < len(want) and got[k] == want[k]:
         k += 1
-    culprit = int(want[k]) if k < len(want) else int(got[k])
-    what = kind.get(culprit, "line")
-    return ("attr" if what == "attribute line" else "rest"), "%s lost, duplicated or out of place (line id %d; got %s, expected %s)" % (
-        what, culprit, ",".join(got)[:200] or "-", ",".join(want)[:200] or "-")
+    kept = [x for x in pos if not x[2]]
+    what = kept[k][1] if k < len(kept) else "line"
+    return ("attr" if what == "attribute line" else "rest"), "%s lost, duplicated or out of place (position %d; got %s, expected %s)" % (
+        what, k, ",".join(got)[:200] or "-", ",".join(want)[:200] or "-")
 
 
 def lines_prop(line, impl, model):
@@ -460,10 +461,10 @@ def send_prop(line, impl, model):
         return None
     if d is None:
         return None if impl == "same" else "%s: text that does not parse as SDP was not passed on unchanged" % what
-    allids, drop, kind = lstruct_lines(d)
+    drop = ndrop(d)
     if impl == "same":
         if drop:
-            return "%s is the unstripped description: it contains %d local host candidate line(s) although local addresses are not kept%s" % (what, len(drop), cfg)
+            return "%s is the unstripped description: it contains %d local host candidate line(s) although local addresses are not kept%s" % (what, drop, cfg)
         return None if d["exact"] else "%s: driver reports byte-identical text where pion's re-marshalling differs" % what
     if not impl.startswith("lines="):
         return "unexpected driver answer " + impl[:80]
@@ -585,7 +586,6 @@ def run(ctx):
                         "a 'host candidate' is an a=candidate attribute of a media section that pion/ice parses with type host; "
                         "candidate lines pion/ice rejects are kept verbatim (class BadCand in the model)"]
     il, ik = ipclass_cases(ctx)
-    ctx.correspond(exe, il, ik, label="ip-classification", prop=prop, key_of=key_of)
 
     stats = {}
     texts = []
@@ -648,17 +648,59 @@ def run(ctx):
         kinds.append("strip:" + k + (":unparsable" if st == "U" else ""))
     ctx.extra["texts_parsed_by_pion"] = nparsed
     ctx.extra["texts_rejected_by_pion"] = len(texts) - nparsed
-    ctx.correspond(exe, lines, kinds, label="strip", prop=prop, key_of=key_of, crosscheck=30)
-    lines_part(ctx, exe, texts)
+    ll, lk, usable = lines_cases(ctx, exe, texts)
+    # one model run / driver run / in-Coq cross-check for the three ops of the black-box driver
+    bl = il + lines + ll
+    model, _ = ctx.correspond(exe, bl, ik + kinds + lk, label="ipclass+strip+lines", prop=bb_prop, key_of=bb_key, crosscheck=0)
+    pools = [(bl, model)]
+    sites_part(ctx, usable, pools)
+    crosscheck_once(ctx, pools, 80)
 
 
 C08_ARGS = ["-test.run", "^TestVerifC08Driver$", "-verif.c08"]
 
 
-def lines_part(ctx, exe, texts):
-    """the whole description at line level (op `lines`), then the two call sites (ops `psend`, `csend`)"""
-    rng = ctx.rng
-    thorough = ctx.tier == "thorough"
+IGNORED_LAST = ("strip", "lines", "psend", "csend", "peer", "peerg")
+
+
+def crosscheck_once(ctx, pools, n):
+    """one in-Coq (vm_compute) cross-check of the extracted runner over a sample of all case lines of the run; for
+    ops whose last argument is only read by the Go driver (the text itself) it is replaced by x00 so that long
+    cases qualify too - the model output cannot depend on it (see `run` in coq/Run/SdpstripRun.v)"""
+    pairs = []
+    for lines, model in pools:
+        for l, m in zip(lines, model):
+            a = l.split(" ")
+            if a[1] in IGNORED_LAST:
+                l = " ".join(a[:-1] + ["x00"])
+            if len(l) < 400 and len(m) < 2000 and not m.startswith("!"):
+                pairs.append((l, m))
+    ctx.rng.shuffle(pairs)
+    byop = {}
+    for l, m in pairs:
+        byop.setdefault(l.split(" ")[1], []).append((l, m))
+    sample = []
+    while len(sample) < n and any(byop.values()):
+        for op in sorted(byop):
+            if byop[op] and len(sample) < n:
+                sample.append(byop[op].pop())
+    if sample:
+        bad = vlib.coq_crosscheck(sample)
+        ctx.extra["vm_compute_crosschecked"] = ctx.extra.get("vm_compute_crosschecked", 0) + len(sample)
+        for i in bad:
+            ctx.not_shown("extraction cross-check: vm_compute and extracted runner differ on `%s`" % sample[i][0][:300])
+
+
+def bb_prop(line, impl, model):
+    return (lines_prop if line.split(" ")[1] == "lines" else prop)(line, impl, model)
+
+
+def bb_key(line, impl, model):
+    return (lines_key if line.split(" ")[1] == "lines" else key_of)(line, impl, model)
+
+
+def lines_cases(ctx, exe, texts):
+    """cases of the whole description at line level (op `lines`); also returns the texts usable at the call sites"""
     ctx.assumptions += ["line level: model = coq/Model/SdpStripLines.v; a line id stands for the exact text of a line of pion's re-marshalling of the input; "
                         "the driver prints the ids of ALL lines of the real output",
                         "call sites: proxy sendAnswer is driven with a peer connection whose LocalDescription() is the case's text (field set by reflection) "
@@ -671,7 +713,7 @@ def lines_part(ctx, exe, texts):
     if rc != 0 or len(res) != len(pl):
         ctx.violation("driver-crash", "lparse phase died at input %r: %s" % (texts[len(res)][1][:300] if len(res) < len(texts) else None, err[-400:]),
                       dict(label="lparse", case=pl[len(res)] if len(res) < len(pl) else None))
-        return
+        return [], [], []
     lines, kinds, usable = [], [], []
     for (k, t), r in zip(texts, res):
         if r.startswith("!"):
@@ -684,8 +726,13 @@ def lines_part(ctx, exe, texts):
         kinds.append("lines:" + k + (":unparsable" if tok == "U" else ""))
         if utf8_ok(t):
             usable.append((k, tok, t))
-    ctx.correspond(exe, lines, kinds, label="lines", prop=lines_prop, key_of=lines_key, crosscheck=20)
+    return lines, kinds, usable
 
+
+def sites_part(ctx, usable, pools):
+    """the two call sites (ops `psend`, `psendreal`, `csend`)"""
+    rng = ctx.rng
+    thorough = ctx.tier == "thorough"
     # ---- call sites.  Texts that are not UTF-8 are changed by encoding/json on the way (C13 note) and are left out.
     cls = [(k, tok, t) for k, tok, t in usable if k.startswith("class:")]
     rest = [(k, tok, t) for k, tok, t in usable if not k.startswith("class:")]
@@ -697,7 +744,8 @@ def lines_part(ctx, exe, texts):
         for keep in "01":
             pl2.append("%s psend %s %s x%s" % (AREA, keep, tok, t.hex()))
             pk.append("psend:keep=%s:%s" % (keep, k if k.startswith("class:") else ("unparsable" if tok == "U" else "generated")))
-    ctx.correspond(pexe, pl2, pk, label="proxy-sendAnswer", prop=send_prop, key_of=send_key, impl_args=C08_ARGS, crosscheck=10)
+    model, _ = ctx.correspond(pexe, pl2, pk, label="proxy-sendAnswer", prop=send_prop, key_of=send_key, impl_args=C08_ARGS, crosscheck=0)
+    pools.append((pl2, model))
     real_pc_part(ctx, pexe)
 
     cexe = vlib.go_test_build("./client/lib", name="client_lib_c08c13.test")
@@ -729,7 +777,8 @@ def lines_part(ctx, exe, texts):
             uk, url = rng.choice(BROKER_URLS)
             mk, cache, front = rng.choice(METHODS if amp_ok(url) else METHODS[:4])
             add(keep, uk, url, mk, cache, front, k, tok, t)
-    ctx.correspond(cexe, cl, ck, label="client-Negotiate", prop=send_prop, key_of=send_key, impl_args=C08_ARGS, crosscheck=10)
+    model, _ = ctx.correspond(cexe, cl, ck, label="client-Negotiate", prop=send_prop, key_of=send_key, impl_args=C08_ARGS, crosscheck=0)
+    pools.append((cl, model))
 
 
 def real_pc_part(ctx, pexe):
@@ -740,6 +789,7 @@ def real_pc_part(ctx, pexe):
     rc, res, err = vlib.run_impl(pexe, pl, args=C08_ARGS)
     res = res + ["!died"] * (len(pl) - len(res))
     shapes = {}
+    pending = []
     for (keep, addr), l, r in zip(cases, pl, res):
         ctx.count(l + " " + r[:40], kind="psendreal:keep=%s:%s" % (keep, "own-address" if addr == "-" else "host=" + addr))
         if r.startswith("!") and not r.startswith("!panic"):
@@ -753,14 +803,15 @@ def real_pc_part(ctx, pexe):
         if bad:
             ctx.violation(send_key(line, sent, None), "peer connection made by pion (host address %s): %s" % (addr, bad), dict(label="psendreal", case=l, impl=r[:4000]))
             continue
-        m = vlib.run_model([line])[0]
-        if m != sent:
-            ctx.not_shown("psendreal: model and implementation disagree on `%s`: model=%s impl=%s" % (l, m[:200], sent[:200]))
+        pending.append((l, line, sent))
         d = parse_lstruct(tok)
         if d:
-            allids, drop, _ = lstruct_lines(d)
             ncand = sum(1 for _, attrs in d["media"] for a in attrs if a[1] == "c")
-            shapes["%s" % addr] = "%d candidates, %d local" % (ncand, len(drop))
+            shapes["%s" % addr] = "%d candidates, %d local" % (ncand, ndrop(d))
+    if pending:
+        for (l, line, sent), m in zip(pending, vlib.run_model([x[1] for x in pending])):
+            if m != sent:
+                ctx.not_shown("psendreal: model and implementation disagree on `%s`: model=%s impl=%s" % (l, m[:200], sent[:200]))
     ctx.extra["psendreal_descriptions"] = shapes
 
 
